@@ -60,11 +60,11 @@ CHECKS = {
    note=TB + "Modelled, not verified: EvalAbs.v (memory paths). Instruction-sequence composition over lifted x86 semantics is covered only through the rep/unrolled comparison so far.",
    design='4/C07', category='other'),
  'C10': dict(
-   technique='Gallina model of the x86 decoder interpreting tables regenerated from the running library (opcode trie, 728 mnemonic records, ModRM/SIB tables); exact-output correspondence over the structured control-byte space; totality clauses evaluated on the implementation',
+   technique='Coq proof (stream-discipline lemmas composed over every byte-reading function of the decoder model, for ANY tables) of no over-read and truncation => None; Gallina model interpreting tables regenerated from the running library, tied by exact-output correspondence over the structured control-byte space; exception classes and text totality evaluated on the implementation',
    text=("Decoder half: X86Dis.v mirrors _dis/get_afs/special_opcodes (exceptions other than IOError are explicit CRASH outcomes); the tables are re-dumped from /repo on every run (tie D) and the model "
          "is compared with x86mnemo.dis on ~0.55M (quick) / 6M (thorough) control strings + random strings: None-ness, length, prefixes, mnemonic, every operand field. On the implementation: exact-length "
-         "re-decode (no over-read), every truncation reports absence, stream offsets 1..3, both renderings of one representative per (mnemonic, prefixes, operand-shape) signature. Universal theorems about "
-         "the model (no over-read, truncation) are work in progress: not yet claimed. Assembler text half: no Gallina model of PLY/asm_candidates — a fixed set of ~14k lines/token sequences is run and exception "
+         "re-decode (no over-read), every truncation reports absence, stream offsets 1..3, both renderings of one representative per (mnemonic, prefixes, operand-shape) signature. Theorems (props/C10.v, closed, for ANY tables, every byte string and continuation): an accepted instruction of length L is determined by its first L bytes (any other bytes may follow), 0 <= L <= bytes supplied, "
+         "and every proper prefix of those L bytes gives None (never an exception, never another instruction). Assembler text half: no Gallina model of PLY/asm_candidates — a fixed set of ~14k lines/token sequences is run and exception "
          "types classified (exploration only)."),
    note=TB + "Modelled, not verified: X86Dis.v. AT&T rendering fails for ~200 mnemonics and MMX/SSE forms with an extra prefix cannot be rendered in either syntax: listed in known_findings.json by class with witnesses.",
    design='4/C10', category='other'),
